@@ -11,7 +11,7 @@ from hv.oracle import snapshot as S
 ASSUMPTIONS = [
     "class tokens passed to add_class/has_class are non-empty and whitespace-free; remove_class may be given the token surrounded by whitespace",
     "when remove_class is given a token that is not present, only 'tokens unchanged' is demanded (the value may be re-joined, an attribute without tokens may stay or go)",
-    "css() keys are ASCII identifiers; values are None, str, int, float or lists of str; add_style(None) is not part of the statement",
+    "css() keys are Python identifiers (ASCII ones decided exactly; for a non-ASCII capital letter lower case is demanded, a hyphen before it is allowed either way); values are None, str, int, float or lists of str; add_style(None) is not part of the statement",
 ]
 
 TOKENS = ["foo", "foobar", "foo-x", "fo", "o", "bar", "Foo", "x", "a:b", "btn-primary", "\xe9", "f", "foo_", "b&r", '"q"']
@@ -170,8 +170,18 @@ def css_key_model(k: str) -> str:
     return "".join(out)
 
 
+def css_key_models(k: str) -> set:
+    """acceptable spellings: 'hyphenated lower case' is exact for ASCII names; for a non-ASCII capital the statement
+    fixes lower case but not whether it counts as a camelCase hump, so both readings are accepted"""
+    a = css_key_model(k).lower()
+    b = "".join(("-" + c.lower()) if c != c.lower() else ("-" if c == "_" else c) for c in k)
+    return {a, b}
+
+
 def css_case():
     key = st.one_of(
+        st.sampled_from(["color\u00c9cran", "\u00c4rger_level", "font\u03a9mega", "\u0426\u0432\u0435\u0442_\u0444\u043e\u043d\u0430", "stra\u00dfe_A", "\u01c5x", "a\u0130b", "\u00e9t\u00e9_Size"]),
+        st.builds(lambda a, b: a + b, st.sampled_from("abX_\u00c9\u00e9\u03a9"), st.text(alphabet="abXY_09\u00c9\u00e9\u03a9\u0416", max_size=6)),
         st.sampled_from(["font_size", "fontSize", "backgroundColor", "background_color", "color", "MozBoxSizing", "margin_top_", "marginTop_", "_webkit_x", "aB_cD", "a_b_c_d", "XMLHttp", "a1_B2", "z__y", "font_Size"]),
         st.builds(lambda a, b: a + b, st.sampled_from("abcXYZ_"), st.text(alphabet="abcXYZ_09", max_size=8)),
     ).filter(lambda k: k != "collapse_" and k.isidentifier())
@@ -191,14 +201,24 @@ def body_css(case, note):
     kw = {k: v for k, v in case["kw"]}
     sep = "" if case["collapse"] == "<default>" else case["collapse"]
     exp = ""
+    decls = []
     for k, v in case["kw"]:
         if v is None:
             continue
         vs = " ".join(v) if isinstance(v, list) else str(v)
-        exp += css_key_model(k) + ":" + vs + ";" + sep
+        exp += css_key_model(k).lower() + ":" + vs + ";" + sep
+        decls.append((css_key_models(k), ":" + vs + ";" + sep))
     exp_v = None if exp == "" else exp
     got = h.css(**kw) if case["collapse"] == "<default>" else h.css(collapse_=sep, **kw)
-    check(got == exp_v and (got is None or type(got) is str), "css() output differs from one name:value; per non-None argument in order", exp_v, got)
+    check(got is None or type(got) is str, "css() does not return str or None", type(got).__name__)
+    if got is None or exp_v is None:
+        check(got == exp_v, "css() output differs from one name:value; per non-None argument in order", exp_v, got)
+    else:
+        pos = {0}
+        for names, rest in decls:
+            pos = {p + len(nm) + len(rest) for p in pos for nm in names if got.startswith(nm + rest, p)}
+            check(bool(pos), "css() output differs from one name:value; per non-None argument in order", exp_v, got)
+        check(len(got) in pos, "css() output has trailing text", exp_v, got)
     if case["collapse"] == "<default>":
         t = h.Tag("div", style="a:b;")
         try:
@@ -220,7 +240,8 @@ def body_css(case, note):
         check(raised == "TypeError", f"css(collapse_={case['bad_collapse']!r}) expected TypeError, got {raised}")
     keys = [k for k, v in case["kw"] if v is not None]
     collide = len({css_key_model(k) for k in keys}) < len(keys)
-    note(len(keys) >= 2 and any(c.isupper() or c == "_" for k in keys for c in k), "none-only" if case["kw"] and not keys else "", "camel" if any(c.isupper() for k in keys for c in k) else "", "bad-collapse" if case["bad_collapse"] is not None else "", "same-property-twice" if collide else "")
+    note(len(keys) >= 2 and any(c.isupper() or c == "_" for k in keys for c in k), "none-only" if case["kw"] and not keys else "", "camel" if any(c.isupper() for k in keys for c in k) else "", "bad-collapse" if case["bad_collapse"] is not None else "", "same-property-twice" if collide else "",
+         "non-ascii-capital-in-name" if any(ord(c) > 127 and c != c.lower() for k in keys for c in k) else "")
 
 
 def selftest():
@@ -237,5 +258,5 @@ RULE = (
 
 CLAUSES = [
     Clause("history", body_history, strategy=case_strategy, quick=1000, thorough=15000, shards_quick=3, required=("attribute-dropped", "removed-present", "style-rejected", "op:add_class", "op:add_style", "op:has_class"), rule="see RULE"),
-    Clause("css", body_css, strategy=css_case, quick=1200, thorough=15000, shards_quick=2, required=("none-only", "camel", "bad-collapse", "same-property-twice"), rule="see RULE"),
+    Clause("css", body_css, strategy=css_case, quick=1200, thorough=15000, shards_quick=2, required=("none-only", "camel", "bad-collapse", "same-property-twice", "non-ascii-capital-in-name"), rule="see RULE"),
 ]
